@@ -64,7 +64,9 @@ def run(tier, seed):
                 tr = ASM.assembly_trace(pf2, pr2, tg2, op1, fix=dict(win=sorted(steps), x=ASM.vec(x0), l0=ASM.vec(op0.l), u0=ASM.vec(op0.u),
                                                                      l1=ASM.vec(op1.l), u1=ASM.vec(op1.u)))
                 # the per-asset tables are not needed for the fix clause: keep the trace small
-                tr['assets'] = []
+                # (only the declared window of each asset is kept: which step a variable belongs to is read from the mapping, and the mapping is
+                #  anchored to the declaration by the clause step_in_window)
+                tr['assets'] = [dict(win=t['win'], nodes=t['nodes']) for t in tr['assets']]
                 tr['g']['rows'] = []
                 tr['g']['nodal'] = []
                 traces.append(tr)
